@@ -66,7 +66,9 @@ type Seq struct {
 	bulkHooks   bool // several chunks: file mutations of earlier chunks precede later hooks
 	Hooks       Hooks
 	KnownSample map[string]string
-	NoReopen    bool // differential attribution for C04: restarts become no-ops
+	NoReopen    bool                    // differential attribution for C04: restarts become no-ops
+	History     map[int]map[string]bool // every accepted value of every object (async crash oracle)
+	everAsync   bool
 	small       *smallModel
 	smallAsync  bool              // async setting of the second collection (it has its own schema)
 	smallDirty  bool              // the second collection may have pending async writes
@@ -441,7 +443,7 @@ func (s *Seq) opSave(op *Op) {
 	if accepted {
 		s.checkUUIDAfterWrite(o, op.Lid)
 		exp.Initialize(o.UUID())
-		s.M.Put(op.Lid, exp)
+		s.modelPut(op.Lid, exp)
 		if s.Prof.Scribble {
 			Scribble(o)
 		}
@@ -499,7 +501,7 @@ func (s *Seq) opResave(op *Op) {
 	if accepted {
 		s.checkUUIDAfterWrite(r, op.Lid)
 		exp.Initialize(r.UUID())
-		s.M.Put(op.Lid, exp)
+		s.modelPut(op.Lid, exp)
 	}
 	s.lightReadsOf("after-resave", []int{op.Lid})
 }
@@ -684,4 +686,17 @@ func (s *Seq) modelDelete(lid int) {
 		}
 	}
 	s.M.Delete(lid)
+}
+
+// modelPut stores the accepted value and remembers it in the object's history
+// (the async crash oracle accepts any accepted version in a file).
+func (s *Seq) modelPut(lid int, r *shapes.Rec) {
+	s.M.Put(lid, r)
+	if s.History == nil {
+		s.History = map[int]map[string]bool{}
+	}
+	if s.History[lid] == nil {
+		s.History[lid] = map[string]bool{}
+	}
+	s.History[lid][model.JSON(r)] = true
 }
